@@ -49,6 +49,9 @@ def main():
     violations, inconclusive, spurious, known_lines = 0, 0, 0, []
     seen_known = set()
     rdir = os.path.join(VERIF, "replays", prop)
+    import shutil
+
+    shutil.rmtree(rdir, ignore_errors=True)
     for r in results:
         if r.verdict in (INCONCLUSIVE, ERROR):
             inconclusive += 1
